@@ -12,6 +12,8 @@
              C17_trunc_between, C17_round_between, C17_round_int (the cast of fix 056e54b), C17_bilinear_at_most_four
   matrix   : C17_matrix_assoc, C17_matrix_one, C17_matrix_apply_mul, C17_matrix_inverse, C17_matrix_maps_back,
              C17_translate_scale_compose, C17_rotate_compose   (any field; cos/sin enter as an opaque pair)
+             C17_matrix_mul_assign (operator*=), C17_matrix_chain, C17_matrix_chain_apply (histories of *=, any list), C17_matrix_rotate_about
+  (theorems over the TRANSLATED matrix3x2 kernels: Props/C17Kernel.lean)
   Floating point: every theorem is about exact arithmetic (Rat / an arbitrary field); the code's IEEE operation
   sequence is reproduced by the executable model and compared bit for bit -- partial (float).
 -/
@@ -440,6 +442,50 @@ theorem C17_rotate_compose (c1 s1 c2 s2 : K) (p : K × K) :
       have : (c1 * p.1 + -s1 * p.2 + 0) * (c1 * p.1 + -s1 * p.2 + 0) + (s1 * p.1 + c1 * p.2 + 0) * (s1 * p.1 + c1 * p.2 + 0)
           = (c1 * c1 + s1 * s1) * (p.1 * p.1 + p.2 * p.2) := by ring
       rw [this, h1, one_mul]
+
+/-- `operator*=`: `(m *= n) = m * n` -- also when the argument aliases the object (`m *= m` = `m * m`) -/
+theorem C17_matrix_mul_assign (m n : M32 K) :
+    M32.mulAssign m n = M32.mul m n ∧ M32.mulAssign m m = M32.mul m m := by
+  constructor <;> rfl
+
+/-- a map composed step by step, `m = start; m *= M1; …; m *= Mn` (ANY list of matrices), is the left-to-right product,
+    which by associativity is `start * (M1 * (M2 * …))`; from the default-constructed identity it is `M1 * … * Mn` -/
+theorem C17_matrix_chain (start : M32 K) (ms : List (M32 K)) :
+    M32.chain start ms = ms.foldl M32.mul start ∧
+    M32.chain start ms = M32.mul start (ms.foldr M32.mul M32.one) ∧
+    M32.chain M32.one ms = ms.foldr M32.mul M32.one := by
+  have h2 : ∀ (s : M32 K), ms.foldl M32.mul s = M32.mul s (ms.foldr M32.mul M32.one) := by
+    induction ms with
+    | nil => intro s; exact ((C17_matrix_one s (0, 0)).2.1).symm
+    | cons x xs ih => intro s; simp only [List.foldl_cons, List.foldr_cons]; rw [ih (M32.mul s x), C17_matrix_assoc]
+  have h1 : ∀ (s : M32 K), M32.chain s ms = ms.foldl M32.mul s := fun s => rfl
+  refine ⟨h1 start, (h1 start).trans (h2 start), ?_⟩
+  rw [h1, h2]; exact (C17_matrix_one _ (0, 0)).1
+
+/-- the mapping law along a history of compound multiplications: the composed map sends `p` to
+    `(((p * start) * M1) * …) * Mn` -- what `resample_pixels` evaluates when it is given the composed map -/
+theorem C17_matrix_chain_apply (start : M32 K) (ms : List (M32 K)) (p : K × K) :
+    M32.apply (M32.chain start ms) p = ms.foldl (fun q m => M32.apply m q) (M32.apply start p) := by
+  induction ms generalizing start with
+  | nil => rfl
+  | cons x xs ih =>
+    simp only [M32.chain, List.foldl_cons] at ih ⊢
+    rw [ih (M32.mulAssign start x)]
+    congr 1
+    exact C17_matrix_apply_mul start x p
+
+/-- textbook composition "rotate about a centre": `I *= translate(-cx,-cy); *= rotate(c,s); *= translate(cx,cy)` fixes the centre
+    and maps `p` to `centre + R (p - centre)` -/
+theorem C17_matrix_rotate_about (cx cy c s : K) (p : K × K) :
+    let m := M32.chain M32.one [M32.translate (-cx) (-cy), M32.rotate c s, M32.translate cx cy]
+    M32.apply m p = (cx + (c * (p.1 - cx) - s * (p.2 - cy)), cy + (s * (p.1 - cx) + c * (p.2 - cy))) ∧
+    (c = 1 → s = 0 → m = M32.one) := by
+  refine ⟨?_, ?_⟩
+  · simp only [M32.chain, List.foldl, M32.mulAssign, M32.mul, M32.apply, M32.one, M32.translate, M32.rotate]
+    ext <;> simp only <;> ring
+  · intro hc hs
+    subst hc hs
+    apply M32_ext <;> simp only [M32.chain, List.foldl, M32.mulAssign, M32.mul, M32.one, M32.translate, M32.rotate] <;> ring
 
 end matrix
 
